@@ -967,6 +967,18 @@ func gfRunRuntime(g *gfRunner, c config) {
 			g.skip(unhx(t[1]))
 		}
 	}
+	// EncodeVarint at the ends of the int range: `offset -= Sov(v)` wraps there
+	for _, v := range []uint64{0, 127, 128, 300, 1 << 63, math.MaxUint64} {
+		for _, bl := range []int{0, 1, 3, 12} {
+			for _, off := range []int{math.MinInt64, math.MinInt64 + 1, math.MinInt64 + 9, math.MinInt64 + 10, math.MinInt64 + 11, -11, -10, math.MaxInt64 - 1, math.MaxInt64} {
+				buf := make([]byte, bl)
+				for i := range buf {
+					buf[i] = byte(0xc0 + i)
+				}
+				g.encv(buf, off, v)
+			}
+		}
+	}
 	// the option builders: every flag combination at the depth boundaries
 	res := gfOpaqueResolver{protoregistry.GlobalTypes}
 	for _, fl := range []uint8{0, 1, 2, 3, 4, 0x80, 0xfe, 0xff} {
